@@ -30,14 +30,14 @@ ANCHORS = [
     "ginjax.geometric.geometric_image:GeometricImage.multicontract", "ginjax.geometric.geometric_image:GeometricImage.levi_civita_contract", "ginjax.geometric.geometric_image:GeometricImage.norm",
     "ginjax.geometric.geometric_image:GeometricImage.convolve_with", "ginjax.geometric.functional_geometric_image:mul", "ginjax.geometric.functional_geometric_image:multicontract",
 ]
-MIN_NONTRIVIAL = {"quick": 120, "thorough": 2500}
+MIN_NONTRIVIAL = {"quick": 120, "thorough": 6000}
 WORKERS = {"quick": 8, "thorough": 16}
 TIMEOUT = {"quick": 1200, "thorough": 7200}
 OPS = ["add", "sub", "scale", "rscale", "mul", "transpose", "contract", "multicontract", "levi", "norm", "conv"]
 
 
 def cases(tier, seed):
-    n = 300 if tier == "quick" else 6000
+    n = 300 if tier == "quick" else 14000
     return [{"D": 2 if i % 3 else 3} for i in range(n)]
 
 
